@@ -62,6 +62,7 @@ def units(tier, seed):
     if tier == "thorough":
         us += [{"kind": "seqs", "tier": tier, "first": i, "depth": 4, "only_len": 4} for i in range(len(seq_alphabet(tier, 4)))]
     us.append({"kind": "self-synonym"})
+    us.append({"kind": "process-history"})
     us += [{"kind": "after-merge", "tier": tier, "first": i} for i in range(len(seq_alphabet(tier, 3)))]
     for kind in ("prefix_map", "priority_map", "reverse_map", "jsonld"):
         us.extend({"kind": kind, "part": i, "of": 8} for i in range(8))
@@ -283,6 +284,9 @@ def run_unit(unit, ctx):
             ctx.count("sweep_cases")
             for sig, msg in run_seq(seq, ctx)[:2]:
                 ctx.violation(f"C04/{sig}", msg, {"kind": "seq", "seq": seq})
+    elif kind == "process-history":
+        for sig, msg in run_process_history(ctx)[:3]:
+            ctx.violation(f"C04/{sig}", msg, {"kind": "process-history"})
     elif kind == "self-synonym":
         for sig, msg in run_self(ctx):
             ctx.violation(f"C04/{sig}", msg, {"kind": "self-synonym"})
@@ -329,6 +333,81 @@ def run_self(ctx=None):
                         fails.append(("self-synonym-accepted/uri_prefix/from_priority_prefix_map", f"from_priority_prefix_map({{{p or 'k'!r}: {lst}}}) accepted although {lst[0]!r} repeats as its own synonym"))
                 except ValueError:
                     pass
+    return fails
+
+
+def run_process_history(ctx=None):
+    """The verdict on a collection depends on that collection alone, whatever was constructed or loaded before in the same
+    process: (1) collections whose records differ only in how a string is split among synonyms (\"alt,p7\" vs \"alt\", \"p7\";
+    no synonym vs the empty synonym), constructed one after the other in both orders, at sizes 3..130; (2) the same file path
+    loaded again after its content changed from valid to clashing and back; (3) the caller's list changed after construction."""
+    import json
+    import os
+    import tempfile
+
+    fails = []
+    for n in (3, 39, 40, 41, 64, 130):
+        base = [mrec(f"p{i}", f"u{i}/") for i in range(n)]
+        twins = [
+            (base + [mrec("x", "ux/", ["alt,p1"])], base + [mrec("x", "ux/", ["alt", "p1"])]),           # valid / clash on p1
+            (base + [mrec("x", "ux/", [], ["v,u1/"])], base + [mrec("x", "ux/", [], ["v", "u1/"])]),     # valid / clash on u1/
+            (base + [mrec("", "e/"), mrec("x", "ux/")], base + [mrec("", "e/"), mrec("x", "ux/", [""])]),  # valid / clash on ""
+            (base + [mrec("x", "ux/", ["p1,alt"][::-1])], base[:1] + base[2:] + [mrec("x", "ux/", ["alt", "p1"])]),   # valid / valid (p1 itself absent)
+        ]
+        for a, b in twins:
+            for first, second in ((a, b), (b, a)):
+                for coll in (first, second, first):
+                    model = Model(coll, ":")
+                    check_result(lambda c=coll: Converter([to_record(r) for r in c]), model, fails, f"Converter(<{len(coll)} records ending in {recs_to_json(coll[-2:])}>) after its twin collection was constructed in the same process", ctx)
+                    if ctx is not None:
+                        ctx.count("twin_collections")
+                if fails:
+                    return fails
+    # (2) one path, changing content
+    d = tempfile.mkdtemp(prefix="c04.", dir="/dev/shm" if os.path.isdir("/dev/shm") else None)
+    try:
+        path = os.path.join(d, "map.json")
+        ok_map, ok_epm = {"a": "x/", "b": "y/"}, [{"prefix": "a", "uri_prefix": "x/"}, {"prefix": "b", "uri_prefix": "y/"}]
+        bad_epm = [{"prefix": "a", "uri_prefix": "x/"}, {"prefix": "b", "uri_prefix": "y/", "prefix_synonyms": ["a"]}]
+        bad_epm2 = [{"prefix": "a", "uri_prefix": "x/"}, {"prefix": "b", "uri_prefix": "y/", "uri_prefix_synonyms": ["x/"]}]
+        from pathlib import Path
+
+        for arg in (path, Path(path)):
+            for content, loader, clash in ((ok_epm, curies.load_extended_prefix_map, None), (bad_epm, curies.load_extended_prefix_map, curies.DuplicatePrefixes),
+                                           (ok_epm, curies.load_extended_prefix_map, None), (bad_epm2, curies.load_extended_prefix_map, curies.DuplicateURIPrefixes),
+                                           (bad_epm, Converter.from_extended_prefix_map, curies.DuplicatePrefixes), (ok_epm, Converter.from_extended_prefix_map, None),
+                                           (ok_map, curies.load_prefix_map, None), ({"a": "x/", "b": "x/"}, curies.load_prefix_map, curies.DuplicateURIPrefixes), (ok_map, curies.load_prefix_map, None)):
+                with open(path, "w") as f:
+                    json.dump(content, f)
+                try:
+                    loader(arg)
+                    got = None
+                except Exception as e:  # noqa
+                    got = type(e)
+                if ctx is not None:
+                    ctx.count("file_reloads")
+                    ctx.count("transitions")
+                if got is not clash:
+                    fails.append(("file-verdict-depends-on-earlier-loads-of-the-same-path", f"{loader.__name__}({type(arg).__name__}) with content {content}: {'accepted' if got is None else got.__name__}, expected {'accepted' if clash is None else clash.__name__}"))
+    finally:
+        import shutil
+
+        shutil.rmtree(d, ignore_errors=True)
+    # (3) the caller keeps its list
+    for extra in (mrec("c", "x/"), mrec("a", "z/"), mrec("c", "z/", ["b"])):
+        lst = [to_record(r) for r in (mrec("b", "y/"), mrec("a", "x/"))]
+        conv = Converter(lst)
+        lst.append(to_record(extra))
+        lst.sort(key=lambda r: r.uri_prefix)
+        other = Converter(conv.records)
+        try:
+            other.add_record(to_record(extra))
+        except ValueError:
+            pass
+        model = Model([mrec("a", "x/"), mrec("b", "y/")], ":")
+        check_result(lambda: conv, model, fails, f"Converter(lst) after lst.append({extra}) and after Converter(conv.records).add_record of the same", ctx)
+        if len(conv.records) != 2:
+            fails.append(("accepted-but-views-incomplete", f"Converter(lst) shows {len(conv.records)} records after the caller's list / a converter built from its records list grew"))
     return fails
 
 
@@ -386,6 +465,8 @@ def replay(case):
         fails = run_seq(case["seq"], None)
     elif kind == "self-synonym":
         fails = run_self(None)
+    elif kind == "process-history":
+        fails = run_process_history(None)
     else:
         fails = run_loader(kind, [tuple(tuple(x) if isinstance(x, list) else x for x in item) for item in case["items"]], None)
     return [(f"C04/{s}", m) for s, m in fails]
